@@ -619,6 +619,23 @@ func (c *scen) forgeryScenarios() {
 			}
 		}
 	}
+	{
+		// a genuine signature LIFTED from the genuine hash list onto another one: the signed attributes carry two
+		// messageDigest attributes - first the digest of the new hash list (what a "first of its type" lookup compares with
+		// the content), last the genuine one (what the lifted signature covers once duplicates are collapsed or re-sorted)
+		dgs := copyDGs(c.dgs)
+		dgs[2] = append(append([]byte{}, dgs[2]...), 0x00)
+		s := NewSODSpec(c.ds, dgs, st)
+		b0 := c.base()
+		if lso, err := b0.LDSSecurityObject(); err == nil {
+			dig := s.SD.Signers[0].DigestAlg
+			if dig == "" {
+				dig = c.ks.Hash
+			}
+			s.SD.Signers[0].SignOverMessageDigest = Digest(dig, lso)
+			f("signature-lifted-second-message-digest-attribute", "altered DG2 and hash list; signedAttrs = contentType, signingTime, messageDigest(new), messageDigest(genuine); signature valid over the genuine attribute set", c.sod(s), dgs, nil)
+		}
+	}
 	f("ds-expired-at-signing-time", "signing time 2036-01-01, after the DS certificate's notAfter", c.sod(NewSODSpec(c.ds, c.dgs, time.Date(2036, 1, 1, 0, 0, 0, 0, time.UTC))), nil, nil)
 	f("ds-not-yet-valid-at-signing-time", "signing time 2019-01-01, before the DS certificate's notBefore", c.sod(NewSODSpec(c.ds, c.dgs, time.Date(2019, 1, 1, 0, 0, 0, 0, time.UTC))), nil, nil)
 	{
